@@ -171,15 +171,22 @@ pub fn run_program<V: Val, S: StratExt<V>>(seed: u64, len: usize, ledger: bool) 
     }
     for step in 0..len {
         let live = st.live_conts();
-        let op = if live.is_empty() { 0 } else { rng.weighted(&[6, 22, 8, 6, 3, 14, 10, 10, 10, 5, 2, 2, 4]) };
+        let op = if live.is_empty() { 0 } else { rng.weighted(&[6, 22, 8, 6, 3, 14, 10, 10, 10, 5, 2, 2, 4, 3, 3]) };
         match op {
             0 => {
                 if st.conts.iter().filter(|c| c.is_some()).count() < 3 {
                     let v = st.some_value(&mut rng);
                     let id = v.vid();
-                    st.conts.push(Some(ArcSwapAny::<V, S>::new(v)));
+                    // every way of constructing a container
+                    let (cont, how): (ArcSwapAny<V, S>, &str) = match rng.below(4) {
+                        0 => (ArcSwapAny::<V, S>::new(v), "new"),
+                        1 => (ArcSwapAny::<V, S>::from(v), "from"),
+                        2 => (ArcSwapAny::<V, S>::with_strategy(v, S::default()), "with_strategy"),
+                        _ => (v.into(), "into"),
+                    };
+                    st.conts.push(Some(cont));
                     st.model.push(Some(id));
-                    st.log.push(format!("c{} = new({:x})", st.conts.len() - 1, id));
+                    st.log.push(format!("c{} = {}({:x})", st.conts.len() - 1, how, id));
                 }
             }
             1 => {
@@ -218,7 +225,7 @@ pub fn run_program<V: Val, S: StratExt<V>>(seed: u64, len: usize, ledger: bool) 
                 if st.guards.len() < 12 {
                     let v = st.some_value(&mut rng);
                     let id = v.vid();
-                    let g: Guard<V, S> = Guard::from_inner(v);
+                    let g: Guard<V, S> = if rng.chance(1, 2) { Guard::from_inner(v) } else { Guard::from(v) };
                     st.log.push(format!("g = Guard::from_inner({:x})", id));
                     expect_id!("Guard::from_inner", g.vid(), id);
                     st.guards.push((g, id));
@@ -380,6 +387,46 @@ pub fn run_program<V: Val, S: StratExt<V>>(seed: u64, len: usize, ledger: bool) 
                 let cont = st.conts[c].take().unwrap();
                 drop(cont);
                 st.model[c] = None;
+            }
+            13 => {
+                // Debug formatting of the container goes through a load; of a guard through deref
+                let c = *rng.pick(&live);
+                let cont = st.conts[c].as_ref().unwrap();
+                let txt = format!("{:?}", cont);
+                let cur = cont.load_full();
+                let want = format!("ArcSwapAny({:?})", cur);
+                st.log.push(format!("format!(c{}) -> {}", c, txt));
+                expect_id!("load_full after format", cur.vid(), st.model[c].unwrap());
+                if txt != want && fail.is_none() {
+                    fail = Some(format!("Debug of the container prints {} but it holds {}", txt, want));
+                }
+                drop(cur);
+                if let Some((g, _)) = st.guards.last() {
+                    let a = format!("{:?}", g);
+                    let b = format!("{:?}", &**g);
+                    if a != b && fail.is_none() {
+                        fail = Some(format!("Debug of a guard prints {} but it denotes {}", a, b));
+                    }
+                }
+            }
+            14 => {
+                // rcu whose closure hands back the value it was given: the exchange succeeds at once,
+                // the container keeps its value, the previous value is returned
+                let c = *rng.pick(&live);
+                let cont = st.conts[c].as_ref().unwrap();
+                let mut calls = 0;
+                let prev = cont.rcu(|cur: &V| {
+                    calls += 1;
+                    cur.clone()
+                });
+                st.log.push(format!("c{}.rcu(identity) -> {:x} ({} calls)", c, prev.vid(), calls));
+                expect_id!("rcu(identity)", prev.vid(), st.model[c].unwrap());
+                if calls != 1 && fail.is_none() {
+                    fail = Some(format!("rcu(identity) called its closure {} times in a single-threaded program", calls));
+                }
+                hash = mix(hash, prev.vid());
+                let k = rng.below(POOL as u64) as usize;
+                st.pool[k] = Some(prev);
             }
             _ => {
                 let k = rng.below(POOL as u64) as usize;
